@@ -51,9 +51,34 @@ fn project(book: &umya::Spreadsheet) -> Value {
             }
         }
     }
+    // row and column dimensions that carry a setting
+    let dims: Vec<Value> = book
+        .get_sheet_collection_no_check()
+        .iter()
+        .map(|ws| {
+            let mut rows: Vec<Value> = ws
+                .get_row_dimensions()
+                .iter()
+                .filter(|r| *r.get_height() != 0.0 || *r.get_hidden() || *r.get_thick_bot() || *r.get_custom_height())
+                .map(|r| json!([r.get_row_num(), r.get_height(), r.get_custom_height(), r.get_hidden(), r.get_thick_bot()]))
+                .collect();
+            rows.sort_by_key(|x| x[0].as_u64());
+            // get_cell_mut materialises a column dimension with the library's default width (8.38) for the
+            // column it touches; such an entry is not a setting
+            let mut cols: Vec<Value> = ws
+                .get_column_dimensions()
+                .iter()
+                .filter(|c| *c.get_width() != 8.38 || *c.get_hidden())
+                .map(|c| json!([c.get_col_num(), c.get_width(), c.get_hidden()]))
+                .collect();
+            cols.sort_by_key(|x| x[0].as_u64());
+            json!({"rows": rows, "cols": cols})
+        })
+        .collect();
     if let Some(sheets) = v["sheets"].as_array_mut() {
         for (i, s) in sheets.iter_mut().enumerate() {
             s["cells"] = styled[i].clone();
+            s["dims"] = dims[i].clone();
         }
     }
     v
